@@ -38,15 +38,18 @@ EXCEPTIONS = {
 
 
 class V:
-    """set of integer intervals plus 'unk' (may also be something unmodelled)"""
-    __slots__ = ('iv', 'unk')
+    """set of integer intervals plus 'unk' (may also be something unmodelled).  'weak' marks intervals that were
+    obtained by applying a test to a value nothing was known about: they bound the value from outside (good enough to
+    exclude zero) but are no evidence that a particular value occurs."""
+    __slots__ = ('iv', 'unk', 'weak')
 
-    def __init__(self, iv=(), unk=False):
+    def __init__(self, iv=(), unk=False, weak=False):
         self.iv = norm(iv)
         self.unk = unk
+        self.weak = weak
 
     def __eq__(self, o):
-        return self.iv == o.iv and self.unk == o.unk
+        return self.iv == o.iv and self.unk == o.unk and self.weak == o.weak
 
     def has_zero(self):
         return any(lo <= 0 <= hi for lo, hi in self.iv)
@@ -73,7 +76,7 @@ ANY = V(((-INF, INF),), False)
 
 
 def join(a, b):
-    return V(a.iv + b.iv, a.unk or b.unk)
+    return V(a.iv + b.iv, a.unk or b.unk, a.weak or b.weak)
 
 
 def lift2(a, b, fn):
@@ -84,7 +87,7 @@ def lift2(a, b, fn):
             if r is None:
                 return V((), True)
             iv.extend(r if isinstance(r, list) else [r])
-    return V(iv, a.unk or b.unk)
+    return V(iv, a.unk or b.unk, a.weak or b.weak)
 
 
 def refine(v, op, c):
@@ -116,10 +119,10 @@ def refine(v, op, c):
         # nothing known: the test itself is knowledge
         base = {'<': (-INF, c - 1), '<=': (-INF, c), '>': (c + 1, INF), '>=': (c, INF), '==': (c, c)}.get(op)
         if base:
-            return V((base,), False)
+            return V((base,), False, op != '==')
         if op == '!=':
-            return V(((-INF, c - 1), (c + 1, INF)), False)
-    return V(out, v.unk and op not in ('==',))
+            return V(((-INF, c - 1), (c + 1, INF)), False, True)
+    return V(out, v.unk and op not in ('==',), v.weak)
 
 
 class Analysis:
@@ -170,7 +173,7 @@ class Analysis:
                 out.append((a, b))
             else:
                 out.append((lo, hi))
-        return V(out, v.unk)
+        return V(out, v.unk, v.weak)
 
     def store_value(self, f, b, i, m, self_val):
         if m is None:
@@ -321,7 +324,7 @@ class Analysis:
         if k == 'u':
             v = self.eval(f, b, i, e[2], env)
             if e[1] == '-':
-                return V(tuple((-hi, -lo) for lo, hi in v.iv), v.unk)
+                return V(tuple((-hi, -lo) for lo, hi in v.iv), v.unk, v.weak)
             if e[1] == '!':
                 return V(((0, 1),))
             return UNK
@@ -356,6 +359,25 @@ class Analysis:
                 return V(((0, INF),))
             if cn == 'abs':
                 return V(((0, INF),))
+            g = self.P.resolve(f.unit, cn) if cn else None
+            if g is not None and g.entry is not None and len(g.blocks) <= 40 and ('c', g.qname) not in self.stack and len(self.stack) < 12:
+                self.stack.add(('c', g.qname))
+                try:
+                    args = [self.eval(f, b, i, a, env) for a in e[2]]
+                    res = None
+                    for b2, i2, l2, m2 in g.nodes():
+                        if m2[0] != 'ret' or m2[1] is None:
+                            continue
+                        penv = {}
+                        for ai, prm in enumerate(g.params):
+                            if ai < len(args):
+                                penv[('p', prm['name'])] = self.param_at(g, ai, args[ai], b2, i2)
+                        v = self.eval(g, b2, i2, m2[1], penv)
+                        res = v if res is None else join(res, v)
+                    if res is not None:
+                        return res
+                finally:
+                    self.stack.discard(('c', g.qname))
             return UNK
         return UNK
 
@@ -382,17 +404,21 @@ class Analysis:
         return out
 
     # ---- locals: forward dataflow of one local through its function
-    def local_states(self, f, L):
-        key = (f.qname, L)
+    def local_states(self, f, L, init=None):
+        key = (f.qname, L, repr(init))
         if key in self.lstate:
             return self.lstate[key]
         if ('l', key) in self.stack:
             return None
         self.stack.add(('l', key))
         bits = (f.locals.get(L[1]) or {}).get('bits')
+        if L[0] == 'p':
+            for prm in f.params:
+                if prm['name'] == L[1]:
+                    bits = prm['type'].get('bits')
         unsigned = isinstance(bits, int) and bits > 0
         succ = f.succs()
-        inn = {f.entry: UNK}
+        inn = {f.entry: UNK if init is None else init}
         count = {}
         work = [f.entry]
         self.lstate[key] = None
@@ -434,11 +460,11 @@ class Analysis:
                         elif a[0] == 'nz' and a[1] == L:
                             o = refine(o, '!=', 0)
                             if unsigned:
-                                o = refine(o, '>=', 1) if o.iv else V(((1, INF),), False)
+                                o = refine(o, '>=', 1) if o.iv else V(((1, INF),), False, True)
                         elif a[0] == 'z' and a[1] == L:
                             o = refine(o, '==', 0)
                     if unsigned and o.iv:
-                        o = V(tuple((max(lo, 0), hi) for lo, hi in o.iv), o.unk)
+                        o = V(tuple((max(lo, 0), hi) for lo, hi in o.iv), o.unk, o.weak)
                 old = inn.get(t)
                 new = o if old is None else join(old, o)
                 if old is None or not (new == old):
@@ -449,12 +475,23 @@ class Analysis:
                             tlo, thi = (0, (1 << bits) - 1) if bits > 0 else (-(1 << (-bits - 1)), (1 << (-bits - 1)) - 1)
                         else:
                             tlo, thi = -INF, INF
-                        new = V(((new.iv[0][0] if count[t] < 20 else tlo, thi),), new.unk)
+                        new = V(((new.iv[0][0] if count[t] < 20 else tlo, thi),), new.unk, new.weak)
                     inn[t] = new
                     work.append(t)
         self.stack.discard(('l', key))
         self.lstate[key] = (inn, transfer)
         return self.lstate[key]
+
+    def param_at(self, g, idx, init, b, i):
+        """value of parameter idx of g at (b, i) when it is `init` on entry"""
+        L = ('p', g.params[idx]['name'])
+        r = self.local_states(g, L, init)
+        if r is None:
+            return init
+        inn, transfer = r
+        if b not in inn:
+            return init
+        return transfer(b, inn[b], upto=i)
 
     def local_at(self, f, L, b, i):
         r = self.local_states(f, L)
@@ -530,9 +567,9 @@ def run(chk, facts, rule='C03-R18'):
                         verdicts.append(('ok', 'step tested against zero in the iteration', ln))
                         continue
                     val = A.eval(f, b, j, m[3])
-                    if val.has_zero():
+                    if val.has_zero() and not val.weak:
                         verdicts.append(('zero', 'the step %s can be 0 (values %r) when it is added at line %d' % (show(step), val, ln), ln))
-                    elif val.unk or not val.iv:
+                    elif val.unk or not val.iv or val.has_zero():
                         verdicts.append(('unk', 'step %s not decided (%r)' % (show(step), val), ln))
                     else:
                         verdicts.append(('ok', 'step %s in %r' % (show(step), val), ln))
